@@ -39,7 +39,7 @@ const LANES: [&str; 3] = ["v", "s", "m"]; // ids 0,1,2
 // bodies of different encoded lengths: buffers that are swapped or rewritten in place must not leak
 // the tail of a longer predecessor
 const VBODIES: [&str; 3] = ["a", "bbbbbbbb", ""];
-const SBODIES: [&str; 2] = ["x", "yyyyyyyy"];
+const SBODIES: [&str; 3] = ["x", "yyyyyyyy", ""];
 const MVALS: [&str; 2] = ["p", "qqqqqqqq"];
 
 #[derive(Clone, Debug, PartialEq, Eq)]
